@@ -60,6 +60,9 @@ func custom(k int) map[string]sod.Constraints {
 		return map[string]sod.Constraints{"Z": {Index: true, Unique: true, Lower: true}}
 	case 7:
 		return map[string]sod.Constraints{"R": {Upper: true}}
+	case 9:
+		// a UNIQUE time field; odd slots write their instants in another time zone (see object())
+		return map[string]sod.Constraints{"T": {Index: true, Unique: true}}
 	case 8:
 		// BOTH case constraints on one field (only a custom schema or the tag "upper,lower" can say that): they are applied
 		// one after the other, upper then lower, wherever a value is canonicalised - stored values and probes alike
@@ -362,6 +365,10 @@ func (r *Runner) complete(slot int, in Vals) Vals {
 func (r *Runner) object(slot int, in Vals) (sod.Object, Vals) {
 	v := r.complete(slot, in)
 	rec := buildRec(v, v["pl"])
+	if r.cfg.Cust == 9 && slot%2 == 1 {
+		// the same instants written in another time zone: one index key, another Go value
+		rec.T = rec.T.In(time.FixedZone("east", 3*3600+1800))
+	}
 	if u, ok := r.slots[slot]; ok {
 		rec.Initialize(u)
 	} else if r.t.OwnIDs && slot%2 == 0 {
@@ -743,6 +750,26 @@ func (r *Runner) step(op *Op) {
 		r.put(op)
 	case "many":
 		r.many(op)
+	case "bulkfeed":
+		// InsertOrUpdateBulk fed by a producer that USES the same handle between two objects (a migration reading one
+		// collection and importing into another does): whatever the import holds while it waits for the next object,
+		// it is not a lock the producer needs
+		objs := []sod.Object{}
+		for _, b := range op.Batch {
+			o, _ := r.object(b.Slot, b.O)
+			objs = append(objs, o)
+		}
+		ch := make(chan sod.Object)
+		go func() {
+			for _, o := range objs {
+				r.db.Count(r.proto())
+				r.db.Search(r.proto(), "K", ">=", int64(0)).Len()
+				ch <- o
+			}
+			close(ch)
+		}()
+		n, err := r.db.InsertOrUpdateBulk(ch, op.Csize)
+		r.emit(ev{"ev": "note", "what": "bulkfeed", "n": n, "c": classify(err)})
 	case "del":
 		r.del(op)
 	case "delall":
